@@ -17,6 +17,7 @@ import (
 	"fmt"
 	"io"
 	"os"
+	"strings"
 	"testing"
 	"time"
 
@@ -32,12 +33,45 @@ import (
 	"verif/ev"
 )
 
+// verifFaultPlan is the environment-answer dimension: call number pos of the key lookup's dependencies (key resolver, key
+// store), in call order, answers `answer` instead of the honest answer.
+type verifFaultPlan struct {
+	pos    int
+	answer string
+	n      int
+	dep    string
+}
+
+var verifFP *verifFaultPlan
+
+func verifHit(dep string) error {
+	p := verifFP
+	if p == nil {
+		return nil
+	}
+	p.n++
+	if p.n-1 != p.pos {
+		return nil
+	}
+	p.dep = dep
+	switch p.answer {
+	case "notfound":
+		return resolver.ErrKeyNotFound
+	case "timeout":
+		return context.DeadlineExceeded
+	}
+	return errors.New("verif: injected dependency failure")
+}
+
 type verifTwoPartyResolver struct {
 	byKid      map[string]crypto.PublicKey
 	authorizer did.DID
 }
 
 func (v verifTwoPartyResolver) ResolveKeyByID(keyID string, _ *resolver.ResolveMetadata, _ resolver.RelationType) (crypto.PublicKey, error) {
+	if err := verifHit("keyresolver.ResolveKeyByID"); err != nil {
+		return nil, err
+	}
 	if k, ok := v.byKid[keyID]; ok {
 		return k, nil
 	}
@@ -45,6 +79,9 @@ func (v verifTwoPartyResolver) ResolveKeyByID(keyID string, _ *resolver.ResolveM
 }
 
 func (v verifTwoPartyResolver) ResolveKey(id did.DID, _ *time.Time, _ resolver.RelationType) (string, crypto.PublicKey, error) {
+	if err := verifHit("keyresolver.ResolveKey"); err != nil {
+		return "", nil, err
+	}
 	if id.Equals(v.authorizer) {
 		return authorizerSigningKeyID, authorizerSigningKey.Public(), nil
 	}
@@ -63,7 +100,13 @@ func verifLegacyCtx(t *testing.T, keys map[string]crypto.PublicKey) *testContext
 	// every party has a trusted organization credential; the authorizer is managed by this node
 	ctx.nameResolver.EXPECT().Search(gomock.Any(), gomock.Any(), false, gomock.Any()).Return([]vc.VerifiableCredential{testCredential}, nil).AnyTimes()
 	ctx.serviceResolver.EXPECT().GetCompoundServiceEndpoint(authorizerDID, expectedService, services.OAuthEndpointType, true).Return(expectedAudience, nil).AnyTimes()
-	ctx.keyStore.EXPECT().Exists(gomock.Any(), authorizerSigningKeyID).Return(true, nil).AnyTimes()
+	// the node's own key store holds the authorizer's key only
+	ctx.keyStore.EXPECT().Exists(gomock.Any(), gomock.Any()).DoAndReturn(func(_ context.Context, kid string) (bool, error) {
+		if err := verifHit("keystore.Exists"); err != nil {
+			return false, err
+		}
+		return kid == authorizerSigningKeyID, nil
+	}).AnyTimes()
 	ctx.keyStore.EXPECT().SignJWT(gomock.Any(), gomock.Any(), nil, authorizerSigningKeyID).DoAndReturn(
 		func(_ context.Context, claims map[string]interface{}, _ map[string]interface{}, _ string) (string, error) {
 			return fmt.Sprintf("access-token-for:%v", claims["sub"]), nil
@@ -109,6 +152,7 @@ type verifLegacyCase struct {
 	Key      string `json:"key,omitempty"`
 	Family   string `json:"family,omitempty"`
 	Variant  string `json:"variant,omitempty"`
+	Env      string `json:"env,omitempty"`
 }
 
 func TestVerifC17Legacy(t *testing.T) {
@@ -116,7 +160,8 @@ func TestVerifC17Legacy(t *testing.T) {
 	r := ev.Start(t, "C17")
 	defer r.Finish()
 	r.Rule("legacy JWT-bearer grant driven through CreateAccessToken: matrix iss x DID of kid x signing key over two resolvable parties (8 cells), " +
-		"and the shared JOSE variant generator on the requester's valid grant per key family")
+		"the shared JOSE variant generator (incl. near-miss DIDs of the claimed party) on the requester's valid grant and on the node's own access token (introspection: key must be one of the node's own keys) per key family; " +
+		"environment-answer dimension: each call of key resolver / key store in turn answers error / not found / time-out")
 	r.Assume("collaborators of the grant other than the key resolver are the package's own gomock fixtures (organization credential found, authorizer managed locally)")
 	var rc verifLegacyCase
 	replay := r.ReplayCase(&rc)
@@ -169,73 +214,152 @@ func TestVerifC17Legacy(t *testing.T) {
 	}
 
 	// ---- the shared variant generator on R's grant
-	for _, fam := range enum.AllFamilies {
-		if replay && (rc.Scenario != "variants" || rc.Family != fam) {
-			continue
-		}
-		signer, err1 := enum.GenerateJOSEKey("R", fam)
-		foreign, err2 := enum.GenerateJOSEKey("X", fam)
-		rogue, err3 := enum.GenerateJOSEKey("rogue", enum.FamP256)
-		if err := errors.Join(err1, err2, err3); err != nil {
-			t.Fatal(err)
-		}
-		signer.Kid, foreign.Kid = requesterDID.String()+"#signing-key", verifAttackerDID+"#signing-key"
-		ctx := verifLegacyCtx(t, map[string]crypto.PublicKey{signer.Kid: signer.Public(), foreign.Kid: foreign.Public()})
-		// the grant lives 5 s: variants are minted from one original per chunk, see below
-		mint := func() string {
-			return verifSign(map[string]any{"kid": signer.Kid}, verifGrantClaims(requesterDID.String()), signer.Priv, enum.DefaultAlg(fam))
-		}
-		orig := mint()
-		if ok, detail := verifGrant(ctx, orig); !ok {
-			t.Fatalf("harness: valid %s grant refused: %s", fam, detail)
-		}
-		in := enum.JOSEInput{Token: orig, Signer: signer, Foreign: foreign, Rogue: rogue, FlipStride: 3}
-		if r.Thorough() {
-			in.FlipStride, in.FlipAllBits = 1, true
-		}
-		variants, err := enum.JOSEVariants(in)
-		if err != nil {
-			t.Fatal(err)
-		}
-		jc := enum.JOSEConsumer{Name: "legacy-jwt-bearer", Allowed: []string{"ES256", "ES384", "ES512", "PS256", "PS384", "PS512", "EdDSA"},
-			KeyFor: func(f enum.JOSEFacts) crypto.PublicKey {
-				if f.HasKid && f.Kid == signer.Kid { // iss is the requester in every variant: only its own key is the protocol's
-					return signer.Public()
+	type legacyConsumer struct {
+		name    string
+		ownDID  string // the DID whose key the protocol names
+		allowed []string
+		claims  func() []byte
+		run     func(ctx *testContext, token string) (bool, string)
+	}
+	algs := []string{"ES256", "ES384", "ES512", "PS256", "PS384", "PS512", "EdDSA"}
+	consumers := []legacyConsumer{
+		// JWT-bearer grant: the key must be the claimed issuer's (requester's) key from its DID document
+		{"legacy-jwt-bearer", requesterDID.String(), algs, func() []byte { return verifGrantClaims(requesterDID.String()) }, verifGrant},
+		// access-token introspection: the key must be one of the node's OWN keys (key store) - resolved through the DID document
+		{"legacy-introspect", authorizerDID.String(), algs, func() []byte {
+			now := time.Now()
+			b, _ := json.Marshal(map[string]any{"iss": authorizerDID.String(), "sub": requesterDID.String(), "service": expectedService,
+				"iat": now.Add(-time.Minute).Unix(), "exp": now.Add(2 * time.Hour).Unix()})
+			return b
+		}, func(ctx *testContext, token string) (ok bool, detail string) {
+			defer func() {
+				if p := recover(); p != nil {
+					ok, detail = false, fmt.Sprintf("panic: %v", p)
 				}
-				return nil
-			}}
-		if vd := enum.JOSEReference(jc, variants[0], ""); !vd.Strict {
-			t.Fatalf("harness: reference refuses the original (%s)", vd.Clause)
-		}
-		r.Bound("variants:legacy/"+fam, len(variants))
-		for _, v := range variants {
-			idx++
-			if replay && v.Name != rc.Variant {
+			}()
+			res, err := ctx.oauthService.IntrospectAccessToken(ctx.audit, token)
+			return err == nil && res != nil, fmt.Sprint(err)
+		}},
+	}
+	for _, cons := range consumers {
+		for _, fam := range enum.AllFamilies {
+			if replay && (rc.Scenario != cons.name || rc.Family != fam) {
 				continue
 			}
-			if !replay && !r.Mine(idx) {
-				continue
+			signer, err1 := enum.GenerateJOSEKey("own", fam)
+			foreign, err2 := enum.GenerateJOSEKey("X", fam)
+			rogue, err3 := enum.GenerateJOSEKey("rogue", enum.FamP256)
+			if err := errors.Join(err1, err2, err3); err != nil {
+				t.Fatal(err)
 			}
-			if r.Expired() {
-				return
+			signer.Kid, foreign.Kid = cons.ownDID+"#signing-key", verifAttackerDID+"#signing-key"
+			keys := map[string]crypto.PublicKey{signer.Kid: signer.Public(), foreign.Kid: foreign.Public()}
+			var near []enum.JOSEKey
+			for _, nm := range enum.NearMissDIDs(cons.ownDID) {
+				k, err := enum.GenerateJOSEKey(nm.Kind, enum.FamP256)
+				if err != nil {
+					t.Fatal(err)
+				}
+				k.Kid = nm.DID + "#signing-key"
+				// every near-miss party is resolvable with its own key - provided the shape denotes a DID of its own: a kid such as
+				// did:x:R/evil#k is a DID URL INSIDE R's own document, no other party can publish a key under it
+				if u, err := did.ParseDIDURL(k.Kid); err == nil && u.DID.String()+"#"+u.Fragment == k.Kid {
+					keys[k.Kid] = k.Public()
+				}
+				near = append(near, k)
 			}
-			ok, _ := verifGrant(ctx, v.Token)
-			key := ""
-			if v.Token != orig {
-				key = "legacy|" + fam + "|" + v.Name
+			ctx := verifLegacyCtx(t, keys)
+			orig := verifSign(map[string]any{"kid": signer.Kid}, cons.claims(), signer.Priv, enum.DefaultAlg(fam))
+			if ok, detail := cons.run(ctx, orig); !ok {
+				t.Fatalf("harness: valid %s %s token refused: %s", fam, cons.name, detail)
 			}
-			r.Eval(key)
-			if !ok {
-				r.Outcome("legacy refused")
-				continue
+			in := enum.JOSEInput{Token: orig, Signer: signer, Foreign: foreign, Rogue: rogue, NearMiss: near, FlipStride: 3}
+			if r.Thorough() {
+				in.FlipStride, in.FlipAllBits = 1, true
 			}
-			fd := enum.JOSEJudgeAccepted("C17", jc, v, "", fam)
-			r.Outcome("legacy accepted: " + fd.Kind)
-			switch fd.Kind {
-			case "violation":
-				r.Violation(fd.Signature, fd.What, verifLegacyCase{Scenario: "variants", Family: fam, Variant: v.Name})
-			case "observation":
-				r.Observation(fd.Signature, fd.What)
+			variants, err := enum.JOSEVariants(in)
+			if err != nil {
+				t.Fatal(err)
+			}
+			jc := enum.JOSEConsumer{Name: cons.name, Allowed: cons.allowed,
+				KeyFor: func(f enum.JOSEFacts) crypto.PublicKey {
+					if f.HasKid && f.Kid == signer.Kid { // the claimed issuer is unchanged in every variant: only its own key is the protocol's
+						return signer.Public()
+					}
+					return nil
+				}}
+			if vd := enum.JOSEReference(jc, variants[0], ""); !vd.Strict {
+				t.Fatalf("harness: reference refuses the original (%s)", vd.Clause)
+			}
+			r.Bound("variants:"+cons.name+"/"+fam, len(variants))
+			for _, v := range variants {
+				idx++
+				if replay && (v.Name != rc.Variant || rc.Env != "") {
+					continue
+				}
+				if !replay && !r.Mine(idx) {
+					continue
+				}
+				if r.Expired() {
+					return
+				}
+				ok, _ := cons.run(ctx, v.Token)
+				key := ""
+				if v.Token != orig {
+					key = cons.name + "|" + fam + "|" + v.Name
+				}
+				r.Eval(key)
+				if !ok {
+					r.Outcome(cons.name + " refused")
+					continue
+				}
+				fd := enum.JOSEJudgeAccepted("C17", jc, v, "", fam)
+				r.Outcome(cons.name + " accepted: " + fd.Kind)
+				switch fd.Kind {
+				case "violation":
+					r.Violation(fd.Signature, fd.What, verifLegacyCase{Scenario: cons.name, Family: fam, Variant: v.Name})
+				case "observation":
+					r.Observation(fd.Signature, fd.What)
+				}
+			}
+			// environment-answer dimension (deviation bound 1) on the key lookup: key resolver and key store
+			for _, v := range variants {
+				if !(v.Class == "identity" || strings.HasPrefix(v.Class, "key/") || v.Class == "privjwk/rogue" || v.Class == "sigs/general-2" || v.Class == "alg/none") {
+					continue
+				}
+				idx++
+				if replay && (v.Name != rc.Variant || rc.Env == "") {
+					continue
+				}
+				if !replay && !r.Mine(idx) {
+					continue
+				}
+				verifFP = &verifFaultPlan{pos: -1}
+				cons.run(ctx, v.Token)
+				calls := verifFP.n
+				for k := 0; k < calls; k++ {
+					for _, ans := range []string{"error", "notfound", "timeout"} {
+						if r.Expired() {
+							verifFP = nil
+							return
+						}
+						verifFP = &verifFaultPlan{pos: k, answer: ans}
+						ok, _ := cons.run(ctx, v.Token)
+						envName := verifFP.dep + "=" + ans
+						r.Eval(fmt.Sprintf("%s|%s|%s|env:%s@%d", cons.name, fam, v.Name, envName, k))
+						if !ok {
+							r.Outcome(cons.name + " refused under fault")
+							continue
+						}
+						fd := enum.JOSEJudgeAccepted("C17", jc, v, "", fam)
+						r.Outcome(cons.name + " accepted under fault: " + fd.Kind)
+						if fd.Kind == "violation" {
+							r.Violation(fd.Signature+"|env:"+envName, fd.What+fmt.Sprintf(" - while call %d of the key lookup's dependencies (%s) answers %q", k, verifFP.dep, ans),
+								verifLegacyCase{Scenario: cons.name, Family: fam, Variant: v.Name, Env: fmt.Sprintf("%s@%d", envName, k)})
+						}
+					}
+				}
+				verifFP = nil
 			}
 		}
 	}
